@@ -8,7 +8,7 @@ CONSTANTS
   MaxLen = %(len)d
   MaxDepth = %(depth)d
   AccToks <- %(acc)s
-  OtherToks <- AllOther
+  OtherToks <- %(other)s
   Sizes <- %(sizes)s
   TopU = %(topu)d
 INVARIANTS %(inv)s
@@ -18,8 +18,8 @@ CHECK_DEADLOCK FALSE
 SCALES = {"x1": (65536, 1), "x16384": (4, 16384)}
 
 
-def cfg(ln, depth, acc, sizes, topu, inv="EmitProg"):
-    return CFG % dict(len=ln, depth=depth, acc=acc, sizes=sizes, topu=topu, inv=inv)
+def cfg(ln, depth, acc, sizes, topu, inv="EmitProg", other="AllOther"):
+    return CFG % dict(len=ln, depth=depth, acc=acc, sizes=sizes, topu=topu, inv=inv, other=other)
 
 
 def run(ctx):
@@ -36,7 +36,10 @@ def run(ctx):
         files = {"ref.cfg": cfg(3, 1, "AccSmall", "S13", topu, "RefSound"),
                  # the large scale starts at 3 units (3 GiB): addresses at and above 2^31 are in bounds there
                  "g3.cfg": cfg(4, 1, "AccMin2" if q else "AccMin", ("S1" if scale == "x1" else "S3") if q else "S13", topu),
-                 "sim.cfg": cfg(7 if q else 9, 2, "AccWide", "S13", topu)}
+                 "sim.cfg": cfg(7 if q else 9, 2, "AccWide", "S13", topu),
+                 # accesses through ONE base on both sides of a join, in a memory that already has its final size (at the large
+                 # scale: 4 GiB, so that every 32-bit address is in bounds and only the address computation can go wrong)
+                 "focus.cfg": cfg(5 if q else 6, 1, "AccSame", "S4" if scale != "x1" else "S3", topu, other="JoinToks" if q else "JoinToksT")}
         ctx.tlc("MemAccessMC", "ref.cfg", extra_files=files, tag="design:reference-semantics:" + scale)
         got = ctx.tlc("MemAccessMC", "g3.cfg", extra_files=files, design=False, tag="gen:" + scale)["emitted"]
         nsim = (350 if q else 6000) if scale == "x1" else (120 if q else 2500)
@@ -45,7 +48,12 @@ def run(ctx):
         ctx.extra.setdefault("exhaustive_programs", {})[scale] = len(got)
         if scale != "x1" and q and len(got) > 300:
             got = rnd.sample(got, 300)
-        got += sim
+        foc = ctx.tlc("MemAccessMC", "focus.cfg", extra_files=files, design=False, tag="gen:one-base-around-a-join:" + scale)["emitted"]
+        foc = [p for p in foc if sum(1 for t in p["prog"] if t["t"] == "acc") >= 2]
+        for p in foc:       # input vectors "around the size" of a 4 GiB memory that are not 32-bit addresses cannot be passed
+            p["runs"] = [r for r in p["runs"] if all(0 <= r["inp"][u] * ppu * 65536 + r["inp"][d] < 1 << 32 for u, d in (("v0u", "v0d"), ("v1u", "v1d")))]
+        ctx.extra.setdefault("focus_programs", {})[scale] = len(foc)
+        got += sim + foc
         for k, p in enumerate(got):
             p["scale"], p["topu"] = ppu, topu
             p["const"] = (k % 2 == 0)
